@@ -85,17 +85,17 @@ def judge_match(case, impl, mo, stats, viol, disag):
     if model.get("err") == "outOfModel":
         stats["oom"] += 1
         # fuzzing observation only: whatever the literal is, the comparison must not crash
-        if "exc" in impl and not (m == "REGEX" and impl["exc"] == "error"):
+        if "exc" in impl and not (m == "REGEX" and impl["exc"] == "YAMLPathException"):
             viol.append(("crash:%s@%s" % (impl["exc"], impl["site"]),
                          "search_matches(%s, %r, %r) raised %s" % (m, t, case["hv"], impl["exc"]), case))
         return
     if "timeout" in impl:
         viol.append(("timeout", "search_matches(%s, %r, %r) did not return in 5 s" % (m, t, case["hv"]), case))
         return
-    if model.get("err") == "crash:error":
-        # invalid regular expression: not a well-formed term; re.error expected on both sides
+    if model.get("err") == "ypath:generic":
+        # invalid regular expression: not a well-formed term; a YAML Path error on both sides (fix 149bd27)
         stats["rx_invalid"] += 1
-        if impl.get("exc") != "error":
+        if impl.get("exc") != "YAMLPathException":
             disag.append(("regex-invalid-outcome", "invalid pattern %r: impl %s" % (t, impl), case))
         return
     want = model["ok"]
